@@ -19,8 +19,9 @@
       <p> (<bit> <value>)*p  <pp dom> <pp cod> <j> ((swap | gate <name> <nin> <nout>) <offset>)*j
       par = tket parameter as a numerator over 16 (even)
 
-    fromtk <tket circuit> -> "ok dom=<w…> cod=<w…> boxes=<box@offset;…>" | "err <class>"
-                        a box is printed with the tokens of the circuit language joined by '_'
+    fromtk <tket circuit> -> "ok dom=<w…> cod=<w…> boxes=<box@offset;…> <flags>" | "err <class> <flags>"
+                        a box is printed with the tokens of the circuit language joined by '_';
+                        flags: wf=<TkIn.wellFormed> imp=<TkIn.importable> final=<TkIn.psFinal>
     tkround <scaled> <circuit> -> "ok a=<tkspec fields of the circuit> | b=<tkspec fields of from_tk(to_tk(circuit))>"
                         | "err <stage> <class>"      (the round trip on the model)
 -/
@@ -154,9 +155,10 @@ def handle (cmd : String) (rest : List String) : Option String :=
       | .error m => "bad " ++ m
       | .ok (_, _ :: _) => "bad trailing tokens"
       | .ok (inp, []) =>
+        let flags := s!"wf={b01 inp.wellFormed} imp={b01 inp.importable} final={b01 inp.psFinal}"
         match fromTk inp with
-        | .error e => s!"err {e}"
-        | .ok d => "ok " ++ pD d
+        | .error e => s!"err {e} {flags}"
+        | .ok d => s!"ok {pD d} {flags}"
   | "tkround" =>
     some <| match (do let s ← bool; let c ← circ; pure (s, c)).run rest with
       | .error m => "bad " ++ m
